@@ -134,10 +134,16 @@ def random_problem(rng, n, steps, dt=None, local=True, phases=True, scale=1.0, x
     if steps >= 3 and rng.random() < 0.3:
         # plateaus: consecutive steps with bit-identical rows (constant pulses), optionally with only the detuning or
         # only the amplitude still varying (the sweep part of an adiabatic protocol)
-        mode = rng.choice(["const", "delta_ramp", "omega_ramp"])
+        mode = rng.choice(["const", "delta_ramp", "omega_ramp", "phase_steps", "phase_steps"])
         k0 = rng.randrange(0, steps - 1)
         k1 = rng.randrange(k0 + 2, steps + 1)
         for k in range(k0 + 1, k1):
+            if mode == "phase_steps":
+                # back-to-back constant pulses that differ ONLY in phase (composite pulses, echo trains)
+                omega[k] = omega[k0]
+                delta[k] = delta[k0]
+                phi[k, :] = rng.choice([0.0, np.pi / 2, np.pi, -np.pi / 2, rng.uniform(-3, 3)])
+                continue
             phi[k] = phi[k0]
             if mode != "omega_ramp":
                 omega[k] = omega[k0]
